@@ -19,8 +19,7 @@ for(size_t i = 0; i < len; ++i) {
 for(size_t d = 0; d < <input_size>; ++d) {
 <T> res = <Z>;
 for(size_t b = 0; b < <self.num_bits>; ++b) {
-res <<= 1;
-res += !!(inp[i * <input_size> * <self.num_bits> + (<self.num_bits> - b - 1) * <input_size> + d]);
+res = (<T>) (((<UT>) res << 1) | !!(inp[i * <input_size> * <self.num_bits> + (<self.num_bits> - b - 1) * <input_size> + d]));
 }
 inp_temp[d] = res;
 }
@@ -44,7 +43,7 @@ carry = carry & out_temp_o_d;
 }
 // Unpack the result bits
 for(size_t b = 0; b < <self.num_bits>; ++b) {
-const <T> bit_mask = <ONE> << b;
+const <T> bit_mask = (<T>) ((<UT>) 1 << b);
 <BITS_TO_DTYPE[32]> res = 0;
 for(size_t d = 0; d < <log2_of_num_neurons_per_class_ll>; ++d) {
 res <<= 1;
@@ -64,6 +63,7 @@ HOLE_ALIASES = {
     "BITS_TO_DTYPE[self.num_bits]": "T",
     "BITS_TO_ZERO_LITERAL[self.num_bits]": "Z",
     "BITS_TO_ONE_LITERAL[self.num_bits]": "ONE",
+    "BITS_TO_UNSIGNED_DTYPE[self.num_bits]": "UT",      # the unsigned type of the word's width: shifts are done there (no UB at the sign bit)
 }
 
 
